@@ -8,6 +8,7 @@ CONSTANTS
   MaxWrite = 1
   Validates = {FALSE, TRUE}
   SetClass = "none"
+  UpdEnabled = {TRUE}
   Deviations = {"EmptyStrAsNone", "InfTextAsFloat", "UuidTextAsId", "NoneMemberAsText", "IsValueFlipOnNone", "FileFormRejectsWorkspace", "GroupPropagation"}
 VIEW vw
 INVARIANT Explained
